@@ -182,9 +182,17 @@ func c04Exec(ctx context.Context, client lungo.IClient, op *c04Op) {
 				if err != nil && !errors.Is(err, lungo.ErrNoDocuments) {
 					return err
 				}
-				out = fmt.Sprintf("read n=%d", d.N)
 				runtime.Gosched()
-				_, err = coll.UpdateOne(sc, key, bson.D{{Key: "$set", Value: bson.D{{Key: "n", Value: d.N + 1}, {Key: "last", Value: op.ID}}}}, options.Update().SetUpsert(true))
+				if _, err = coll.UpdateOne(sc, key, bson.D{{Key: "$set", Value: bson.D{{Key: "n", Value: d.N + 1}, {Key: "last", Value: op.ID}}}}, options.Update().SetUpsert(true)); err != nil {
+					return err
+				}
+				// a second step in the same transaction: the read must see the first write
+				var d2 c04Doc
+				if err := coll.FindOne(sc, key).Decode(&d2); err != nil {
+					return err
+				}
+				out = fmt.Sprintf("read n=%d,%d", d.N, d2.N)
+				_, err = coll.UpdateOne(sc, key, bson.D{{Key: "$set", Value: bson.D{{Key: "n", Value: d2.N + 1}}}})
 				return err
 			}
 			var a, b c04Doc
@@ -488,7 +496,7 @@ func c04CommitOrder(c *fw.Ctx, ctx context.Context, w *world, all []*c04Op, keys
 		want := 0
 		if op.effect {
 			want = 1
-			if op.Kind == "transfer" {
+			if op.Kind == "transfer" || op.Kind == "rmw" {
 				want = 2
 			}
 		}
@@ -669,14 +677,14 @@ func c04Step(state, input, output interface{}) (bool, interface{}) {
 	case "rmw":
 		n := s.N
 		if in.Abort {
-			return out == fmt.Sprintf("read n=%d aborted", n), s
+			return out == fmt.Sprintf("read n=%d,%d aborted", n, n+1), s
 		}
 		if !s.Exists {
 			s = c04State{Exists: true}
 		}
-		s.N = n + 1
+		s.N = n + 2
 		s.Last = in.ID
-		return out == fmt.Sprintf("read n=%d committed", n), s
+		return out == fmt.Sprintf("read n=%d,%d committed", n, n+1), s
 	}
 	return false, s
 }
@@ -754,8 +762,11 @@ func c04Conservation(c *fw.Ctx, ctx context.Context, w *world, all []*c04Op, key
 		// counters: acknowledged increments
 		want := map[int]int64{}
 		for _, op := range all {
-			if (op.Kind == "inc" || op.Kind == "rmw") && op.effect {
+			if op.Kind == "inc" && op.effect {
 				want[op.Key]++
+			}
+			if op.Kind == "rmw" && op.effect {
+				want[op.Key] += 2
 			}
 		}
 		for _, d := range final {
@@ -884,6 +895,25 @@ func c04Hammer(c *fw.Ctx) {
 			shared := w.client.Database("d").Collection("shared")
 			nper := 40
 			acks := make([]int64, workers)
+			var delMu sync.Mutex
+			var deleted []string
+			taken := map[string]int{}
+			// victims and queue entries exist before the transaction starts its writes
+			var seedDocs []interface{}
+			for g := 0; g < workers; g++ {
+				for i := 0; i < nper; i++ {
+					if i%4 == 1 {
+						seedDocs = append(seedDocs, bson.D{{Key: "_id", Value: fmt.Sprintf("victim-%d-%d-%d", round, g, i)}})
+					}
+					if i%4 == 3 {
+						seedDocs = append(seedDocs, bson.D{{Key: "_id", Value: fmt.Sprintf("queue-%d-%d-%d", round, g, i)}, {Key: "queue", Value: int32(round)}})
+					}
+				}
+			}
+			if _, err := shared.InsertMany(sctx, seedDocs); err != nil {
+				c.Violate("hammer:shared-seed", "seeding inside the shared transaction failed: "+err.Error(), nil)
+				return
+			}
 			var sg sync.WaitGroup
 			for g := 0; g < workers; g++ {
 				sg.Add(1)
@@ -897,6 +927,26 @@ func c04Hammer(c *fw.Ctx) {
 						if i%7 == 0 {
 							shared.InsertOne(sctx, bson.D{{Key: "g", Value: int32(g)}, {Key: "i", Value: int32(i)}, {Key: "r", Value: int32(round)}})
 						}
+						// deletes inside the shared transaction: own victims by id, and a
+						// common queue from which every document may be taken once
+						if i%4 == 1 {
+							vid := fmt.Sprintf("victim-%d-%d-%d", round, g, i)
+							if res, err := shared.DeleteOne(sctx, bson.D{{Key: "_id", Value: vid}}); err == nil && res.DeletedCount == 1 {
+								delMu.Lock()
+								deleted = append(deleted, vid)
+								delMu.Unlock()
+							}
+						}
+						if i%4 == 3 {
+							var qd struct {
+								ID string `bson:"_id"`
+							}
+							if err := shared.FindOneAndDelete(sctx, bson.D{{Key: "queue", Value: int32(round)}}).Decode(&qd); err == nil {
+								delMu.Lock()
+								taken[qd.ID]++
+								delMu.Unlock()
+							}
+						}
 					}
 				}(g)
 			}
@@ -904,6 +954,24 @@ func c04Hammer(c *fw.Ctx) {
 			if err := sess.CommitTransaction(ctx); err != nil {
 				c.Violate("hammer:shared-commit", "CommitTransaction failed: "+err.Error(), nil)
 				return
+			}
+			// acknowledged deletes are gone, every queue entry was handed out at most once and is gone
+			for _, vid := range deleted {
+				if n, _ := shared.CountDocuments(ctx, bson.D{{Key: "_id", Value: vid}}); n != 0 {
+					c.Violate("hammer:lost-delete-in-shared-transaction", fmt.Sprintf("DeleteOne of %s was acknowledged (DeletedCount=1) inside a session transaction shared by %d goroutines, but the document still exists after the commit", vid, workers), nil)
+					return
+				}
+			}
+			c.Count("hammer_increments", int64(len(deleted)+len(taken)))
+			for id, n := range taken {
+				if n > 1 {
+					c.Violate("hammer:double-take-in-shared-transaction", fmt.Sprintf("FindOneAndDelete returned document %s %d times inside a shared session transaction", id, n), nil)
+					return
+				}
+				if k, _ := shared.CountDocuments(ctx, bson.D{{Key: "_id", Value: id}}); k != 0 {
+					c.Violate("hammer:lost-delete-in-shared-transaction", fmt.Sprintf("FindOneAndDelete returned %s inside a shared session transaction but the document still exists after the commit", id), nil)
+					return
+				}
 			}
 			for g := 0; g < workers; g++ {
 				var d struct {
